@@ -21,7 +21,7 @@ Definition float_of_u64 (z : Z) : float :=
   if z <? 9223372036854775808 then float_of_Z63 z
   else PrimFloat.mul (float_of_Z63 (Z.lor (z / 2) (z mod 2))) (float_of_Z63 2).
 
-(* c.decay(d) = (c as f64 * d).trunc() as T *)
+(* the float part of c.decay(d): (c as f64 * d).trunc() as T; the crate then clamps: .min(c) (Model: decay_clamp) *)
 Definition decay_fn (mx : N) (dbits : Z) (c : N) : N :=
   zN (Z_of_float_trunc_sat 0 (Nz mx) (PrimFloat.mul (float_of_u64 (Nz c)) (float_of_bits dbits))).
 
@@ -64,7 +64,7 @@ Definition step (cfg : list Z) (st : slots) (o : zop) : slots * list Z :=
          | Some s => (put_slot st slot (cm_halve s), [])
          | None => (st, EMPTY) end
   | 6 => match get_slot st slot with
-         | Some s => (put_slot st slot (cm_scale (decay_fn mx (nth 1 a 0)) s), [])
+         | Some s => (put_slot st slot (cm_decay (decay_fn mx (nth 1 a 0)) s), [])
          | None => (st, EMPTY) end
   | 7 => match get_slot st slot with
          | Some s => match cm_deserialize mx sh (cm_serialize s) with
@@ -146,42 +146,77 @@ Fixpoint tm_get (m : truth_map) (x : Z) : N :=
 Fixpoint tm_merge (a b : truth_map) : truth_map :=
   match b with [] => a | (y, v) :: r => tm_merge (tm_add a y v) r end.
 
-Definition ospec := list (truth_map * N).   (* per slot: truths, total *)
-Definition og (st : ospec) (i : Z) := nth (Z.to_nat i) st ([], 0%N).
-Definition op_ (st : ospec) (i : Z) v : ospec := set_nth (Z.to_nat i) v st.
+Definition ospec := list (option (truth_map * N)).   (* per slot: truths, total *)
+Definition og (st : ospec) (i : Z) : option (truth_map * N) := nth (Z.to_nat i) st None.
+Definition op_ (st : ospec) (i : Z) (v : option (truth_map * N)) : ospec := set_nth (Z.to_nat i) v st.
 
+(* observations of exactly one / two fields (anything else is not the shape the op produces) *)
+Definition ob1 (ob : list Z) : option Z := match ob with [x] => Some x | _ => None end.
+Definition ob2 (ob : list Z) : option (Z * Z) := match ob with [x; y] => Some (x, y) | _ => None end.
+Definition is_unit_ob (ob : list Z) : bool := match ob with [] => true | _ => false end.
+
+(* the assumption of c08_decay_is_admissible_scaling, checked on every value the oracle sees: the float part of
+   decay is monotone on them (and, redundantly with the clamp, the clamped function never grows a value) *)
+Fixpoint nodupN (l : list N) : list N :=
+  match l with [] => [] | x :: r => if existsb (N.eqb x) r then nodupN r else x :: nodupN r end.
+Definition mono_on (f : N -> N) (vals : list N) : bool :=
+  let l := nodupN vals in
+  forallb (fun a => forallb (fun b => (b <? a)%N || (f a <=? f b)%N) l) l &&
+  forallb (fun a => (decay_clamp f a <=? a)%N) l.
+
+(* per slot: None = no sketch / history unknown (after a deserialize of foreign bytes), nothing is judged *)
 Fixpoint prop_from (cfg : list Z) (st : ospec) (ops : list zop) (obs : list (list Z)) : bool :=
   match ops, obs with
+  | [], [] => true
   | (code, a) :: r, ob :: obr =>
       let slot := nth 0 a 0 in let mx := ty_max (nth 0 cfg 0) in
-      if list_eqb Z.eqb ob PANIC then true else
+      (* no generator of this family makes a call that may panic: a panic is never what the property allows *)
+      if list_eqb Z.eqb ob PANIC then false else
       match code with
-      | 0 => prop_from cfg (op_ st slot ([], 0%N)) r obr
-      | 1 => let '(m, t) := og st slot in
-             prop_from cfg (op_ st slot (tm_add m (nth 1 a 0) (zN (nth 2 a 0)), N.add t (zN (nth 2 a 0)))) r obr
-      | 2 => let '(m, t) := og st slot in
-             let e := zN (nth 0 ob 0) in
-             N.leb (tm_get m (nth 1 a 0)) e && N.leb e t && prop_from cfg st r obr
-      | 4 => let '(m, t) := og st slot in let '(m2, t2) := og st (nth 1 a 0) in
-             prop_from cfg (op_ st slot (tm_merge m m2, (t + t2)%N)) r obr
-      | 5 => let '(m, t) := og st slot in
-             prop_from cfg (op_ st slot (map (fun p => (fst p, (snd p / 2)%N)) m, (t / 2)%N)) r obr
-      | 6 => let '(m, t) := og st slot in let g := decay_fn mx (nth 1 a 0) in
-             prop_from cfg (op_ st slot (map (fun p => (fst p, g (snd p))) m, g t)) r obr
-      | 8 => let '(m, t) := og st slot in (Nz t =? nth 0 ob 0) && prop_from cfg st r obr
-      | 11 => let '(m, t) := og st slot in
-              let lo := zN (nth 0 ob 0) in let hi := zN (nth 1 ob 0) in
-              (* truth <= lower_bound <= upper_bound (an upper bound below the estimate is D15's symptom) *)
-              N.leb (tm_get m (nth 1 a 0)) lo && N.leb lo hi && N.leb hi mx && prop_from cfg st r obr
-      | 9 => true (* arbitrary image: history unknown from here on *)
+      | 0 => is_unit_ob ob && prop_from cfg (op_ st slot (Some ([], 0%N))) r obr
+      | 1 => match og st slot with
+             | Some (m, t) => is_unit_ob ob &&
+                 prop_from cfg (op_ st slot (Some (tm_add m (nth 1 a 0) (zN (nth 2 a 0)), N.add t (zN (nth 2 a 0))))) r obr
+             | None => prop_from cfg st r obr end
+      | 2 => match og st slot with
+             | Some (m, t) =>
+                 match ob1 ob with
+                 | Some e => (0 <=? e) && N.leb (tm_get m (nth 1 a 0)) (zN e) && N.leb (zN e) t && prop_from cfg st r obr
+                 | None => false end
+             | None => prop_from cfg st r obr end
+      | 4 => match og st slot, og st (nth 1 a 0) with
+             | Some (m, t), Some (m2, t2) => is_unit_ob ob && prop_from cfg (op_ st slot (Some (tm_merge m m2, (t + t2)%N))) r obr
+             | _, _ => prop_from cfg (op_ st slot None) r obr end
+      | 5 => match og st slot with
+             | Some (m, t) => is_unit_ob ob &&
+                 prop_from cfg (op_ st slot (Some (map (fun p => (fst p, (snd p / 2)%N)) m, (t / 2)%N))) r obr
+             | None => prop_from cfg st r obr end
+      | 6 => match og st slot with
+             | Some (m, t) => let f := decay_fn mx (nth 1 a 0) in let g := decay_clamp f in
+                 is_unit_ob ob && mono_on f (t :: map snd m) &&
+                 prop_from cfg (op_ st slot (Some (map (fun p => (fst p, g (snd p))) m, g t))) r obr
+             | None => prop_from cfg st r obr end
+      | 8 => match og st slot with
+             | Some (m, t) => match ob1 ob with Some v => (Nz t =? v) && prop_from cfg st r obr | None => false end
+             | None => prop_from cfg st r obr end
+      | 11 => match og st slot with
+              | Some (m, t) =>
+                  match ob2 ob with
+                  | Some (lo, hi) =>
+                      (* truth <= lower_bound <= upper_bound <= T::MAX (an upper bound below the estimate is D15's symptom) *)
+                      (0 <=? lo) && N.leb (tm_get m (nth 1 a 0)) (zN lo) && (lo <=? hi) && (hi <=? Nz mx) && prop_from cfg st r obr
+                  | None => false end
+              | None => prop_from cfg st r obr end
+      | 9 => (* arbitrary image: the slot's history is unknown from here on; the other slots are still judged *)
+             prop_from cfg (op_ st slot None) r obr
       | 10 => prop_from cfg (op_ st (nth 1 a 0) (og st slot)) r obr
       | _ => prop_from cfg st r obr
       end
-  | _, _ => true
+  | _, _ => false
   end.
 
 Definition prop_ok (c : case) : bool :=
-  prop_from (c_cfg c) (repeat ([], 0%N) 8) (map (norm_op (c_cfg c)) (c_ops c)) (c_obs c).
+  prop_from (c_cfg c) (repeat None 8) (map (norm_op (c_cfg c)) (c_ops c)) (c_obs c).
 
 (* ---------- C11: deserialize(serialize(s)) behaves exactly as s (twin oracle) ---------- *)
 Definition prop_roundtrip : case -> bool := twin_oracle 10 [0; 9].
@@ -213,7 +248,7 @@ Fixpoint layout_from (strict : bool) (cfg : list Z) (st : list (option spec_stat
       let nh := zN (nth 1 cfg 0) in let nb := zN (nth 2 cfg 0) in let sh := zN (nth 4 cfg 0) in
       let mx := ty_max (nth 0 cfg 0) in
       let slot := nth 0 a 0 in
-      if list_eqb Z.eqb ob PANIC then true else
+      if list_eqb Z.eqb ob PANIC then false else
       match code with
       | 0 => layout_from strict cfg (sp st slot (Some (0%N, repeat 0%N (N.to_nat (nh * nb))))) r obr
       | 1 => match sg st slot with
@@ -221,7 +256,8 @@ Fixpoint layout_from (strict : bool) (cfg : list Z) (st : list (option spec_stat
                  layout_from strict cfg (sp st slot (Some (N.add t w, spec_add nb w 0 (map zN (skipn 3 a)) tab))) r obr
              | None => layout_from strict cfg st r obr end
       | 2 => match sg st slot with
-             | Some (t, tab) => (Nz (spec_min nb 0 (map zN (skipn 2 a)) tab mx) =? nth 0 ob (-1)) && layout_from strict cfg st r obr
+             | Some (t, tab) => (match ob1 ob with Some e => Nz (spec_min nb 0 (map zN (skipn 2 a)) tab mx) =? e | None => false end)
+                                && layout_from strict cfg st r obr
              | None => layout_from strict cfg st r obr end
       | 3 => match sg st slot with
              | Some (t, tab) =>
@@ -242,11 +278,11 @@ Fixpoint layout_from (strict : bool) (cfg : list Z) (st : list (option spec_stat
              | Some (t, tab) => layout_from strict cfg (sp st slot (Some (N.div t 2, map (fun c => N.div c 2) tab))) r obr
              | None => layout_from strict cfg st r obr end
       | 6 => match sg st slot with
-             | Some (t, tab) => let g := decay_fn mx (nth 1 a 0) in
-                 layout_from strict cfg (sp st slot (Some (g t, map g tab))) r obr
+             | Some (t, tab) => let f := decay_fn mx (nth 1 a 0) in let g := decay_clamp f in
+                 mono_on f (t :: tab) && layout_from strict cfg (sp st slot (Some (g t, map g tab))) r obr
              | None => layout_from strict cfg st r obr end
       | 8 => match sg st slot with
-             | Some (t, tab) => (Nz t =? nth 0 ob (-1)) && layout_from strict cfg st r obr
+             | Some (t, tab) => (match ob1 ob with Some v => Nz t =? v | None => false end) && layout_from strict cfg st r obr
              | None => layout_from strict cfg st r obr end
       | 9 => if strict then
                match spec_decode (map zN (skipn 1 a)) with
@@ -262,11 +298,13 @@ Fixpoint layout_from (strict : bool) (cfg : list Z) (st : list (option spec_stat
       | 11 => match sg st slot with
               | Some (t, tab) => let e := spec_min nb 0 (map zN (skipn 2 a)) tab mx in
                   (* lower_bound is the exact minimum; upper_bound never falls below it nor exceeds T::MAX *)
-                  (Nz e =? nth 0 ob (-1)) && (Nz e <=? nth 1 ob (-1)) && (nth 1 ob (-1) <=? Nz mx) && layout_from strict cfg st r obr
+                  (match ob2 ob with Some (lo, hi) => (Nz e =? lo) && (Nz e <=? hi) && (hi <=? Nz mx) | None => false end)
+                  && layout_from strict cfg st r obr
               | None => layout_from strict cfg st r obr end
       | _ => layout_from strict cfg st r obr
       end
-  | _, _ => true
+  | [], [] => true
+  | _, _ => false
   end.
 Definition prop_layout (c : case) : bool :=
   layout_from false (c_cfg c) (repeat None 8) (map (norm_op (c_cfg c)) (c_ops c)) (c_obs c).
